@@ -610,6 +610,17 @@ def rows_check(ctx, pkg, test, module, env=None, timeout=1200, workers=2, rows_n
         rc = 0
     else:
         rc, o = go_test(ctx, pkg, test, env=e, timeout=timeout)
+        if rc != 0:
+            cur = os.path.join(out, "current.json")
+            if crash_is and re.search(crash_is[0], o) and os.path.exists(cur):
+                # the process died in the function under test (e.g. stack overflow of a non-terminating
+                # recursion): the input recorded before the call is the witness
+                row = json.load(open(cur))
+                i0 = max(o.find("fatal error:"), o.find("panic:"), 0)
+                row["crash"] = o[i0:i0 + 600]
+                crash_fail = (crash_is[1], -1, row)
+            else:
+                raise Inconclusive("row driver %s failed (rc=%s):\n%s" % (test, rc, o[-2500:]))
     rows = []
     with open(path) as fh:
         lines = [ln for ln in fh if ln.strip()]
